@@ -25,8 +25,7 @@ theorem span_spec_value (fl : Flags) (toks : List Tok) (v : Value) (h : parseVal
 def SpanSpecDocument : Prop :=
   ∀ (fl : Flags) (toks : List Tok) (d : Document), parseDocument fl toks = .ok d → Item.SpansAll fl [documentV d] toks
 
-/-- `span_spec` for the two sub-grammars proved (values, types; all flags). MISSING: documents — follows from
-    `C01.ParseSoundDocument` by `matches_spans`, which is proved for every view. -/
+/-- `span_spec` for values and types (kept from phase 1); documents: `span_spec_document` below (full). -/
 theorem span_spec_partial (fl : Flags) (toks : List Tok) :
     (∀ v, parseValue fl toks = .ok v → Item.SpansAll fl [p .sof, valueV v, p .eof] toks) ∧
     (∀ t, parseType fl toks = .ok t → Item.SpansAll fl [p .sof, typeV t, p .eof] toks) :=
@@ -48,6 +47,10 @@ theorem span_spec_document_of (fl : Flags) (hTS : ∀ fuel, fl.allowTypeSystem =
 theorem span_spec_executable (fl : Flags) (hx : fl.allowTypeSystem = false) (toks : List Tok) (d : Document)
     (h : parseDocument fl toks = .ok d) : Item.SpansAll fl [documentV d] toks :=
   matches_spans _ _ _ (parse_sound_executable fl hx toks d h).2
+
+/-- `span_spec` IN FULL: every document (executable and type-system), all 8 flag combinations. -/
+theorem span_spec_document : SpanSpecDocument :=
+  span_spec_of_sound parse_sound_document
 
 /-! ### `no_location` -/
 
